@@ -96,9 +96,11 @@ NoteG(S) == /\ bad' = bad \cup S /\ hot' = (S # {})
 Note0(S) == /\ bad' = bad \cup S /\ hot' = hot
             /\ \A x \in S \ bad : TLCSet(3, Append(TLCGet(3), <<l, x>>))
 If(cond, name) == IF cond THEN {} ELSE {name}
-Drift(cond, name) == IF cond \/ hot THEN TRUE
-                     ELSE /\ TLCSet(2, TLCGet(2) + 1)
-                          /\ (IF Len(TLCGet(4)) < 40 THEN TLCSet(4, Append(TLCGet(4), <<l, name>>)) ELSE TRUE)
+Drift0(cond, name) == IF cond THEN TRUE
+                      ELSE /\ TLCSet(2, TLCGet(2) + 1)
+                           /\ (IF Len(TLCGet(4)) < 40 THEN TLCSet(4, Append(TLCGet(4), <<l, name>>)) ELSE TRUE)
+\* in a world that already broke a clause a disagreement is a consequence
+Drift(cond, name) == IF hot THEN TRUE ELSE Drift0(cond, name)
 
 ---------------------------------------------------------------------------
 (* clauses over the observed states of all nodes *)
@@ -334,12 +336,12 @@ TCase ==
                        \cup If((valS /\ strict) => e.bits = Target(q, e.ver), "BitsWhenInWindow")
                        \cup If(\A j \in 1..4 : e.acc[j] = 1 => accS(j), "AcceptOnlyByRule")
                        \cup If(\A j \in 1..4 : (accS(j) /\ (strict \/ j <= 2)) => e.acc[j] = 1, "AcceptWhenRule"))
-               /\ Drift((e.can = 1) <=> canS, "Case:can")
-               /\ Drift((e.valid = 1) <=> valS, "Case:valid")
-               /\ Drift(e.bits = Bits(q, e.ver, e.now), "Case:bits")
-               /\ Drift(\A j \in 1..4 : (e.acc[j] = 1) <=> accS(j), "Case:accept")
-               /\ Drift(e.target = Target(q, e.ver), "Case:target")
-               /\ Drift(e.k = Cardinality(el), "Case:committee")
+               /\ Drift0((e.can = 1) <=> canS, "Case:can")
+               /\ Drift0((e.valid = 1) <=> valS, "Case:valid")
+               /\ Drift0(e.bits = Bits(q, e.ver, e.now), "Case:bits")
+               /\ Drift0(\A j \in 1..4 : (e.acc[j] = 1) <=> accS(j), "Case:accept")
+               /\ Drift0(e.target = Target(q, e.ver), "Case:target")
+               /\ Drift0(e.k = Cardinality(el), "Case:committee")
     /\ UNCHANGED <<c, nd, hd, blks, ob>>
 
 \* votes = every vote handed to the listener so far
